@@ -447,6 +447,15 @@ func cmdCheck(args []string) int {
 				fmt.Printf("NOTE: %s: `%s` in its contracts is read as `%s` (the variable was renamed in the code)\n", g.key, o, g.renames[o])
 			}
 		}
+		{
+			seenInl := map[string]bool{}
+			for _, w := range g.inlined {
+				if !seenInl[w] {
+					seenInl[w] = true
+					fmt.Printf("NOTE: %s (a function without contract that is new in this tree) is inlined\n", w)
+				}
+			}
+		}
 		for k := range g.freeUsed {
 			freeUsed[k] = true
 		}
